@@ -25,7 +25,7 @@ use std::sync::Arc;
 use std::time::{Duration, Instant};
 
 const CTR: &str = "c18_scrapes_observed_total";
-const CLEAN_DEADLINE: Duration = Duration::from_secs(12);
+const CLEAN_DEADLINE: Duration = Duration::from_secs(15);
 const FAULTY_DEADLINE: Duration = Duration::from_secs(3);
 /// After this many runs in which the listener failed a healthy client (each is a rejected trace = a violation) the
 /// remaining programs are not executed: every further one would cost a full deadline against a dead listener.
